@@ -385,10 +385,15 @@ package syncer
 //@   ghost var got mathint = 0
 //@   ghost var nonNil mathint = 0
 //@   requires nonnil: ro != nil
-//@   modifies heap, got, nonNil, ended, ctxDone, replayFailed, reqs, lastCmd, lastNArgs, lastA1, lastA2, lastA3, lastA4, lastReply, nDel, nPexpire
+//@   modifies heap, got, nonNil, ended, ctxDone, replayFailed, reqs, lastCmd, lastNArgs, lastA1, lastA2, lastA3, lastA4, lastReply, nDel, nPexpire, invalidated
 //@   set got = got + 1 after recv errChan
 //@   set nonNil = nonNil + ite(recv != nil, 1, 0) after recv errChan
 //@   assert at call setCheckpoint: all_workers_succeeded: nonNil == 0 && got == cap(errChan)
+//   invalidated  1 once the resume position stored on the target has been withdrawn in this call
+//@   ghost var invalidated mathint = 0
+//@   set invalidated = ite(result == nil, 1, 0) after call invalidateCheckpoint
+//@   assert at call ParseRdb: the_stored_position_is_withdrawn_before_a_snapshot_is_applied: invalidated == 1
+//@   replay syncer_rekeyedCheckpoint
 //@   loop 2:
 //@     invariant nothing_collected: got == 0 && nonNil == 0
 //@   loop 3:
